@@ -522,16 +522,24 @@ type oracle struct {
 	prev       *core.VerifSnapshot
 	gapKnown   map[int]bool // accounts whose pending list carries the known gap
 	reinjected int          // re-injection clause: transactions that had to be (and were) pooled again
+	dupTaint   bool         // a transaction has been seen twice in the price heap and the counter has not re-synchronised yet
+	okLocal    map[int]bool // accounts entitled to local treatment: configured, or a local submission of theirs was accepted
 	lowNonce   int          // observations "pool nonce below the account nonce" (no pending tx): not part of the property
 }
 
-func nonLocalOver(s *core.VerifSnapshot, pending bool, lim uint64) bool {
-	for _, a := range s.Accounts {
+// exempt: the account is treated as local by the pool AND is entitled to it.
+// Every limit / price-floor / eviction clause applies to all other accounts.
+func (o *oracle) exempt(i int, s *core.VerifSnapshot) bool {
+	return s.Accounts[i].Local && o.okLocal[i]
+}
+
+func (o *oracle) nonLocalOver(s *core.VerifSnapshot, pending bool, lim uint64) bool {
+	for i, a := range s.Accounts {
 		l := a.Queue
 		if pending {
 			l = a.Pending
 		}
-		if !a.Local && l != nil && uint64(len(l.Hashes)) > lim {
+		if !o.exempt(i, s) && l != nil && uint64(len(l.Hashes)) > lim {
 			return true
 		}
 	}
@@ -545,6 +553,53 @@ func (o *oracle) check(op *Op, ob *Obs, s *core.VerifSnapshot, api []string) (st
 	defer func() { o.prev = s }()
 	if len(api) > 0 {
 		return "pending-api-differs-from-pending-view", api[0]
+	}
+	// 0. an account is local only if configured so or if a submission of it flagged local was accepted
+	if o.okLocal == nil {
+		o.okLocal = map[int]bool{}
+		for _, i := range e.c.Cfg.Locals {
+			o.okLocal[i] = true
+		}
+	}
+	if (op.K == "add" || op.K == "addlocked") && op.Local && !e.c.Cfg.NoLocals && ob.OutKind == 1 {
+		for j, id := range op.Txs {
+			if ob.Errs[j] == 0 && e.c.Txs[id].Sig {
+				o.okLocal[e.c.Txs[id].From] = true
+			}
+		}
+	}
+	for i, a := range s.Accounts {
+		if a.Local && !o.okLocal[i] {
+			return "local-without-accepted-local-submission", fmt.Sprintf("account %d is treated as local although it is not configured local and none of its local submissions was accepted", i)
+		}
+	}
+	for _, addr := range e.pool.Locals() {
+		if i := e.acctIdx(addr); i < 0 || !o.okLocal[i] {
+			return "local-without-accepted-local-submission", fmt.Sprintf("Locals() reports account %d which never had a local submission accepted", i)
+		}
+	}
+	// 0b. price floor and lifetime eviction for everybody who is not entitled to the exemption
+	for i, a := range s.Accounts {
+		if o.exempt(i, s) {
+			continue
+		}
+		for _, l := range []*core.VerifListView{a.Pending, a.Queue} {
+			if l == nil {
+				continue
+			}
+			for _, h := range l.Hashes {
+				if t := e.c.Txs[e.idOf[h]]; new(big.Int).SetUint64(t.Price).Cmp(s.GasPrice) < 0 {
+					return "price-floor-violated", fmt.Sprintf("account %d (remote) keeps tx %d at price %d below the pool's gas price %v", i, t.ID, t.Price, s.GasPrice)
+				}
+			}
+		}
+	}
+	if op.K == "evict" {
+		for _, i := range op.Expired {
+			if !o.exempt(i, s) && s.Accounts[i].Queue != nil {
+				return "expired-queue-kept", fmt.Sprintf("account %d (remote) passed its lifetime but still queues %v", i, s.Accounts[i].Queue.Nonces)
+			}
+		}
 	}
 	// 1. all = pending (+) queue, disjoint
 	inAll := map[common.Hash]bool{}
@@ -724,7 +779,16 @@ func (o *oracle) check(op *Op, ob *Obs, s *core.VerifSnapshot, api []string) (st
 	if s.PricedLive < len(s.All) && !s.PricedDup {
 		return "priced-misses-tx", fmt.Sprintf("price heap has %d live entries, lookup %d", s.PricedLive, len(s.All))
 	}
-	if !s.PricedDup && s.PricedLen-s.Stales != len(s.All) {
+	// A transaction that left the pool and came back before the heap was rebuilt sits in the heap twice
+	// (upstream behaviour); both copies count as live, and once they are popped together the stale counter
+	// is one too high until the next rebuild.  The count clause is suspended from the first sighting of such
+	// a pair until heap and counter agree again.
+	if s.PricedDup {
+		o.dupTaint = true
+	} else if s.PricedLen-s.Stales == len(s.All) {
+		o.dupTaint = false
+	}
+	if !o.dupTaint && s.PricedLen-s.Stales != len(s.All) {
 		return "priced-stale-count-off", fmt.Sprintf("heap %d - stales %d != lookup %d", s.PricedLen, s.Stales, len(s.All))
 	}
 	// 3. read-only API agrees
@@ -785,10 +849,10 @@ func (o *oracle) check(op *Op, ob *Obs, s *core.VerifSnapshot, api []string) (st
 	// 4. limits after a reorg run
 	if op.K == "add" || op.K == "reorg" {
 		c := e.c.Cfg
-		if uint64(pTotal) > c.GlobalSlots && nonLocalOver(s, true, c.AccountSlots) {
+		if uint64(pTotal) > c.GlobalSlots && o.nonLocalOver(s, true, c.AccountSlots) {
 			return "pending-limit-exceeded", fmt.Sprintf("%d pending > GlobalSlots %d while a remote account holds more than AccountSlots %d", pTotal, c.GlobalSlots, c.AccountSlots)
 		}
-		if uint64(qTotal) > c.GlobalQueue && nonLocalOver(s, false, 0) {
+		if uint64(qTotal) > c.GlobalQueue && o.nonLocalOver(s, false, 0) {
 			return "queue-limit-exceeded", fmt.Sprintf("%d queued > GlobalQueue %d while remote accounts still queue", qTotal, c.GlobalQueue)
 		}
 	}
@@ -797,7 +861,7 @@ func (o *oracle) check(op *Op, ob *Obs, s *core.VerifSnapshot, api []string) (st
 			t := e.c.Txs[id]
 			if ob.Errs[j] == 0 && t.Sig {
 				a := s.Accounts[t.From]
-				if !a.Local && a.Queue != nil && uint64(len(a.Queue.Hashes)) > e.c.Cfg.AccountQueue && o.prev != nil &&
+				if !o.exempt(t.From, s) && a.Queue != nil && uint64(len(a.Queue.Hashes)) > e.c.Cfg.AccountQueue && o.prev != nil &&
 					(o.prev.Accounts[t.From].Queue == nil || len(o.prev.Accounts[t.From].Queue.Hashes) <= len(a.Queue.Hashes)) &&
 					o.prev.Accounts[t.From].Queue != nil && uint64(len(o.prev.Accounts[t.From].Queue.Hashes)) <= e.c.Cfg.AccountQueue {
 					return "account-queue-limit-exceeded", fmt.Sprintf("account %d queues %d > AccountQueue %d after a submission", t.From, len(a.Queue.Hashes), e.c.Cfg.AccountQueue)
@@ -1221,6 +1285,85 @@ func (g *gen) heapScenario() []Op {
 	return ops
 }
 
+// localsScenario: a remote account with a pooled transaction receives a LOCAL
+// submission that the pool must refuse (replacement without the price bump,
+// stale nonce, insufficient funds, over the gas limit, oversized); afterwards
+// the account is put under every kind of pressure that local accounts are
+// exempt from: more gapped transactions than AccountQueue, a raised gas
+// price, an expired lifetime, a burst that overflows the global limits.
+func (g *gen) localsScenario() []Op {
+	r, c := g.r, g.c
+	if c.Cfg.NoLocals {
+		return nil
+	}
+	a := r.Intn(c.NAccts)
+	va := g.last.Accounts[a]
+	if va.Pending != nil || va.Queue != nil || va.Local {
+		return nil
+	}
+	for _, i := range c.Cfg.Locals {
+		if i == a {
+			return nil
+		}
+	}
+	pb := c.Blocks[g.head]
+	b := Block{ID: len(c.Blocks), Parent: g.head, Num: pb.Num + 1, GasLimit: 100000, StateOK: true}
+	st := append([]Acct{}, pb.State...)
+	if !pb.StateOK {
+		st = append([]Acct{}, c.Blocks[c.Genesis].State...)
+	}
+	st[a].Balance = 1000000000
+	s := st[a].Nonce
+	b.State = st
+	c.Blocks = append(c.Blocks, b)
+	g.e.ensureBlocks()
+	ops := []Op{{K: "block", Block: b.ID, Old: -1}, {K: "reorg", Reset: true, Old: g.head, New: b.ID, ViaLoop: r.Bool()}}
+	g.head = b.ID
+	k := 2 + g.last.GasPrice.Uint64()/8
+	price := g.price(a, k)
+	ops = append(ops, Op{K: "add", Old: -1, Txs: []int{g.mkTx(a, true, s, price, 21000, 1, 0)}}) // remote, becomes pending
+	var bad int
+	switch r.Intn(5) {
+	case 0, 1: // replacement without the required bump
+		bad = g.mkTx(a, true, s, price, 21000, 2, 0)
+	case 2: // insufficient funds
+		bad = g.mkTx(a, true, s+1, price, 21000, 5000000000, 0)
+	case 3: // over the block gas limit
+		bad = g.mkTx(a, true, s+1, price, 200000, 1, 0)
+	default: // oversized
+		bad = g.mkTx(a, true, s+1, price, 1000000, 1, 33000)
+	}
+	ops = append(ops, Op{K: "add", Old: -1, Local: true, Txs: []int{bad}})
+	if s > 0 && r.Chance(30) { // and a stale one
+		ops = append(ops, Op{K: "add", Old: -1, Local: true, Txs: []int{g.mkTx(a, true, s-1, price, 21000, 3, 0)}})
+	}
+	// pressure
+	order := []int{0, 1, 2, 3}
+	for i := range order {
+		j := r.Intn(i + 1)
+		order[i], order[j] = order[j], order[i]
+	}
+	for _, kind := range order[:1+r.Intn(3)] {
+		switch kind {
+		case 0: // per-account queue overflow (gapped, one by one)
+			for i := uint64(0); i < c.Cfg.AccountQueue+2 && i < 12; i++ {
+				ops = append(ops, Op{K: "add", Old: -1, Txs: []int{g.mkTx(a, true, s+3+i, price, 21000, 4+i, 0)}})
+			}
+		case 1: // the floor moves above the account's prices
+			ops = append(ops, Op{K: "price", Old: -1, Price: price + 8})
+		case 2: // lifetime
+			ops = append(ops, Op{K: "add", Old: -1, Txs: []int{g.mkTx(a, true, s+2, price, 21000, 9, 0)}}, Op{K: "evict", Old: -1, Expired: []int{a}})
+		case 3: // global overflow: a burst of consecutive nonces
+			var txs []int
+			for i := uint64(1); i <= c.Cfg.GlobalSlots+2 && i <= 12; i++ {
+				txs = append(txs, g.mkTx(a, true, s+i, price, 21000, 20+i, 0))
+			}
+			ops = append(ops, Op{K: "add", Old: -1, Txs: txs})
+		}
+	}
+	return ops
+}
+
 func subset(r *vf.Rng, n int, p int) []int {
 	out := []int{}
 	for i := 0; i < n; i++ {
@@ -1386,6 +1529,10 @@ func generate(r *vf.Rng) (*Case, runResult) {
 	var res runResult
 	res.where = -1
 	steps := 6 + r.Heavy(140)
+	localsAt := -1
+	if r.Chance(25) {
+		localsAt = r.Intn(steps)
+	}
 	scenarioAt := -1
 	if c.Cfg.AccountQueue >= 6 {
 		scenarioAt = r.Intn(steps)
@@ -1395,6 +1542,12 @@ func generate(r *vf.Rng) (*Case, runResult) {
 		if scenarioAt >= 0 && len(c.Ops) >= scenarioAt {
 			scenarioAt = -1
 			if sc := g.heapScenario(); sc != nil {
+				next = sc
+			}
+		}
+		if localsAt >= 0 && len(c.Ops) >= localsAt {
+			localsAt = -1
+			if sc := g.localsScenario(); sc != nil {
 				next = sc
 			}
 		}
